@@ -59,3 +59,37 @@ package votecounter
 //@   callsite TotalVotingPower@*: of_the_new_height: $1 == uint64(old(v.currentHeight) + 1)
 //@   ensures height: old(v.currentHeight) < (1<<64) - 1 ==> v.currentHeight == old(v.currentHeight) + 1
 //@   ensures thresholds: v.faultyVotingPower == f(v.totalVotingPower) && v.quorumVotingPower == q(v.totalVotingPower)
+
+// ---- a vote counts for the value it names, and nothing counts for a value nobody voted for ---------
+// countVote answers with the power recorded for exactly that id (the nil tally only for a nil id);
+// an id without any vote has power 0.
+//@ func (*roundData).countVote
+//@   props C12
+//@   arith int
+//@   nosafe
+//@   requires voteType < 2
+//@   ensures nil_id: id == nil ==> result == r.nilVotes.perVoteType[voteType]
+//@   ensures voted_id: id != nil && in(r.perIDVotes, *id) && r.perIDVotes[*id] != nil ==> result == r.perIDVotes[*id].perVoteType[voteType]
+//@   ensures unvoted_id: id != nil && (!in(r.perIDVotes, *id) || r.perIDVotes[*id] == nil) ==> result == 0
+// ---- a proposal is accepted only from the proposer of ITS height and round ------------------------
+//@ extern func github.com/NethermindEth/juno/consensus/votecounter.Validators.Proposer
+//@   logged as ValidatorsProposer
+//@ extern func github.com/NethermindEth/juno/consensus/votecounter.Validators.ValidatorVotingPower
+//@   logged as ValidatorVotingPower
+//@ func (*VoteCounter).AddProposal
+//@   props C12
+//@   arith int
+//@   nosafe
+//@   requires v != nil && proposal != nil
+//@   modifies *
+//@   callsite Proposer@*: of_the_proposals_height_and_round: $1 == proposal.Height && $2 == proposal.Round
+//@   callsite ValidatorVotingPower@*: of_the_proposals_height: $1 == proposal.Height
+//@   callsite getRoundData@*: of_the_proposals_height_and_round: $1 == proposal.Height && $2 == proposal.Round
+//@   callsite setProposal@*: this_proposal: $1 == proposal
+// Quorum queries compare the power counted for exactly the asked kind and value with the quorum.
+//@ func (*VoteCounter).HasQuorumForVote
+//@   props C12
+//@   arith int
+//@   nosafe
+//@   requires v != nil && voteType < 2
+//@   callsite countVote@*: what_was_asked: $1 == voteType && $2 == id && $0 == v.roundData[round]
